@@ -23,6 +23,7 @@ func c20Alphabet(c Cfg) []Op {
 		{K: "put", Key: "a", VC: "Z", Dev: true},
 		{K: "restartslash", Arg: 1, Dev: true}, // the source directory spelled with a trailing separator
 		{K: "restartslash", Arg: 3, Dev: true}, // ... with a "/./" in the middle
+		{K: "restartslash", Arg: 4, Dev: true}, // ... through a symbolic link
 		{K: "merge", Dev: true},
 		{K: "restart", Dev: true},
 		{K: "batch", Sub: []Op{{K: "put", Key: "a", VC: "S"}, {K: "put", Key: "b", VC: "S"}}, Dev: true},
